@@ -11,10 +11,11 @@ from . import tlaval
 SITE = {"CL": "dulwich/index.py:build_index_from_tree", "RI": "dulwich/index.py:build_index_from_tree",
         "CO": "dulwich/index.py:update_working_tree", "COF": "dulwich/index.py:update_working_tree",
         "RH": "dulwich/index.py:update_working_tree", "RM": "dulwich/porcelain/__init__.py:reset", "ST": "dulwich/stash.py:Stash.pop",
-        "AP": "dulwich/patch.py:apply_patches"}
+        "AP": "dulwich/patch.py:apply_patches", "MV": "dulwich/patch.py:_apply_rename_or_copy"}
 ENTRY = {"CL": "porcelain.clone", "RI": "WorkTree.reset_index", "CO": "porcelain.checkout",
          "COF": "porcelain.checkout(force=True)", "RH": "porcelain.reset(mode='hard')", "RM": "porcelain.reset(mode='mixed')",
-         "ST": "porcelain.stash_pop", "AP": "porcelain.apply_patch"}
+         "ST": "porcelain.stash_pop", "AP": "porcelain.apply_patch",
+         "MV": "porcelain.apply_patch (rename/copy patch)"}
 
 
 TOKENS = {"{ZWNJ}": b"\xe2\x80\x8c", "{FF}": b"\xff\xfe"}
@@ -62,13 +63,18 @@ def tree_py(t):
     return sorted(ents, key=lambda e: e["n"])
 
 
-_LAB = re.compile(r"^Step\((.*)\)$", re.S)
+_LAB = re.compile(r"^(Step|Move)\((.*)\)$", re.S)
 
 
 def parse_label(lab):
+    """-> (op, tree, move): Step(op, T) -> (op, T, None); Move(m) -> ("MV", [], m)."""
     m = _LAB.match(lab.strip().replace('\\"', '"').replace("\\\\", "\\"))
-    v = tlaval.parse("<<" + m.group(1) + ">>")
-    return str(v[0]), tree_py(v[1])
+    if m.group(1) == "Move":
+        v = tlaval.parse(m.group(2))
+        return "MV", [], {"mode": str(v["mode"]), "hunks": bool(v["hunks"]),
+                          "src": [str(x) for x in v["src"]], "dst": [str(x) for x in v["dst"]]}
+    v = tlaval.parse("<<" + m.group(2) + ">>")
+    return str(v[0]), tree_py(v[1]), None
 
 
 def node_norm(nd):
@@ -113,8 +119,12 @@ def tree_show(t):
     return " ".join(out) if out else "(empty)"
 
 
+def move_show(mv):
+    return f"{'rename' if mv['mode'] == 'ren' else 'copy'}{'+hunk' if mv['hunks'] else ''} {'/'.join(mv['src'])} => {'/'.join(mv['dst'])}"
+
+
 def seq_show(steps):
-    return " ; ".join(f"{s['op']}[{tree_show(s['tree'])}]" for s in steps)
+    return " ; ".join(f"MV[{move_show(s['mv'])}]" if s.get("mv") else f"{s['op']}[{tree_show(s['tree'])}]" for s in steps)
 
 
 def flat_paths(t, prefix=()):
@@ -154,8 +164,8 @@ def graph_jobs(g, prot_of, max_finals=24):
     def step_of(a, lab, b):
         if lab not in labels:
             labels[lab] = parse_label(lab)
-        op, tree = labels[lab]
-        return {"op": op, "tree": tree, "alts": sorted(set(groups[(a, lab)])), "plan": b}
+        op, tree, mv = labels[lab]
+        return {"op": op, "tree": tree, "mv": mv, "alts": sorted(set(groups[(a, lab)])), "plan": b}
 
     def prefix_to(nd):
         out = []
@@ -287,7 +297,7 @@ def _exec_step(job, case, st, done_steps, res, head_tree):
     op, tree = st["op"], st["tree"]
     links = _links_in_worktree(case) if os.path.isdir(case.W) else []
     before = case.protected(include_config=(op != "CL"), stamp=True)
-    outcome, exc = case.run(op, tree)
+    outcome, exc = case.run(op, tree, st.get("mv"))
     after = case.protected(include_config=(op != "CL"))
     if op == "CL":
         # .git did not exist before: what a clone legitimately creates is what Repo.init creates
@@ -308,11 +318,11 @@ def _exec_step(job, case, st, done_steps, res, head_tree):
     idx = case.index_paths() if case.repo is not None else {}
     steps = done_steps + [st]
     i = len(done_steps)
-    obs = {"op": op, "tree": tree, "res": outcome, "exc": exc,
+    obs = {"op": op, "tree": tree, "mv": st.get("mv"), "res": outcome, "exc": exc,
            "fs": [[list(p), nd] for p, nd in sorted(fs.items())],
            "idx": None if idx is None else [[list(p), nd] for p, nd in sorted(idx.items())]}
     seqtxt = seq_show(steps)
-    hist = {"prot": prot, "steps": [{"op": s["op"], "tree": s["tree"]} for s in steps]}
+    hist = {"prot": prot, "steps": [{"op": s["op"], "tree": s["tree"], "mv": s.get("mv")} for s in steps]}
     viol = []
     # ---- property clause Confined, on the real directory
     for verb, rel, nt in _diff_protected(before, after):
@@ -344,6 +354,8 @@ def _exec_step(job, case, st, done_steps, res, head_tree):
             ents = [e for e in ents if e[1]["t"] == "f"]
         if op == "RM":
             ents = []            # nothing is materialised
+        if op == "MV":           # the patch names two paths: both must be safe for the patch to be applied
+            ents = [(tuple(st["mv"]["src"]), None), (tuple(st["mv"]["dst"]), None)]
         if op in ("CO", "COF") and head_tree is not None:
             old = {(p, repr(k)) for p, k in flat_paths(head_tree)}
             ents = [e for e in ents if (e[0], repr(e[1])) not in old]
